@@ -23,6 +23,7 @@ fn base(prop: &'static str) -> Cfg {
         pre_pop_front: 0,
         init_run: 0,
         stack_mid_item: false,
+        static_value: false,
         twin: false,
         prop,
     }
@@ -606,6 +607,20 @@ fn plans(prop: &str, tier: &str) -> Vec<Plan> {
                 c.max_len = 6;
             }
             out.push(Plan { name: "c15-static-lag", cfgs, depth: if q { 4 } else { 6 } });
+            // A fixed-limit Head/Tail that was polled - possibly in the middle of an input item, one of two
+            // diffs handed out and the other one parked - and is then handed on as the observer of a next stage
+            // (`into_parts`): the values and the remaining diffs it hands on must respect the limit as well.
+            let mut cfgs = Vec::new();
+            for lower in [StageKind::Head(Lim::Static(2)), StageKind::Tail(Lim::Static(2)), StageKind::Head(Lim::Static(1)), StageKind::Tail(Lim::Static(3))] {
+                for init in [vec![0u8, 1, 1], vec![1u8, 0], vec![1u8, 1, 0, 1]] {
+                    let mut c = Cfg { stages: vec![lower, StageKind::Filter], batched: false, init, nkeys: 2, capacity: 16, alphabet: Alphabet::Reduced, policy: Policy::Manual, max_len: 6, ..base("C15") };
+                    c.static_value = true;
+                    c.late_stack = true;
+                    c.stack_mid_item = true;
+                    cfgs.push(c);
+                }
+            }
+            out.push(Plan { name: "c15-handed-on-mid-item", cfgs, depth: if q { 4 } else { 5 } });
         }
         "C20" => {
             let mut kinds = Vec::new();
